@@ -77,6 +77,23 @@ _SX_PARSE = {}
 SX_LONG = {}  # digest -> abbreviated definition text
 
 
+def _running_min(s):
+    """`if x < best: best = x` (or `best > x`): (name of best, node of x) else None."""
+    if s.orelse or len(s.body) != 1 or not isinstance(s.body[0], ast.Assign) or len(s.body[0].targets) != 1:
+        return None
+    t, asg = s.test, s.body[0]
+    if not (isinstance(t, ast.Compare) and len(t.ops) == 1 and isinstance(asg.targets[0], ast.Name)):
+        return None
+    best = asg.targets[0].id
+    l, r, op = t.left, t.comparators[0], t.ops[0]
+    small, big = (l, r) if isinstance(op, (ast.Lt, ast.LtE)) else ((r, l) if isinstance(op, (ast.Gt, ast.GtE)) else (None, None))
+    if small is None or not (isinstance(big, ast.Name) and big.id == best):
+        return None
+    if ast.dump(asg.value) != ast.dump(small):
+        return None
+    return best, small
+
+
 def _sx_leaves(node):
     """Name loads and attribute chains on names (self.x.y) inside `node`, outermost first; the node itself is excluded."""
     out = []
@@ -155,6 +172,8 @@ def join(a, b):
         va, vb = fa.get(k), fb.get(k)
         if k in UNION:
             out[k] = (va or frozenset()) | (vb or frozenset())
+        elif k in ('minwidth', 'pair_width'):
+            out[k] = va if va is not None else vb
         elif k == 'maybe_none' or k == 'maybe_empty':
             if va or vb:
                 out[k] = True
@@ -422,6 +441,11 @@ class Interp:
 
     def _default(self, fi, prm, dflt, st, symbolic):
         dv = self.eval_in_module(dflt, fi.module, st).w(is_default=True)
+        if symbolic and prm.annotation is None and has_const(dv) and isinstance(cval(dv), (int, float)) and not isinstance(cval(dv), bool):
+            # an unannotated numeric parameter of an entry point stands for any number, not for its default
+            name = 'int' if isinstance(cval(dv), int) else 'float'
+            av = self.model.from_annotation(self, st, ast.Name(id=name, ctx=ast.Load()), fi.module, name=prm.arg, fn=fi)
+            return av.w(is_param=f'{fi.qualname}:{prm.arg}', default=dv)
         if not symbolic or prm.annotation is None:
             return dv
         # entry point analysed for every caller: the parameter is any value of its annotated type
@@ -635,6 +659,13 @@ class Interp:
         a = self.exec_block(s.body, frame, t_st) if t_st is not None else None
         b = self.exec_block(s.orelse, frame, f_st) if f_st is not None else None
         out = join_state(a, b)
+        mm = _running_min(s)
+        if mm is not None and out is not None and mm[0] in out.env:
+            # `if x < best: best = x` is best = min(best, x)
+            xv, bv = self.last.get(id(mm[1])), st.env.get(mm[0])
+            w = next((v.pair_width or v.minwidth for v in (xv, bv) if v is not None and (v.pair_width is not None or v.minwidth is not None)), None)
+            if w is not None:
+                out.env[mm[0]] = out.env[mm[0]].w(minwidth=w, pair_width=None)
         if a is not None and b is not None:
             # a scalar bound differently on the two branches stands for the conditional expression (alias-resilient text)
             tsx = self.sx(s.test)
@@ -1110,15 +1141,23 @@ class Interp:
 
     def e_Tuple(self, n, frame, st):
         elts = []
+        star_elem, open_seq = None, False
         for e in n.elts:
             if isinstance(e, ast.Starred):
                 v = self.eval(e.value, frame, st)
                 if v.elts is not None:
                     elts.extend(v.elts)
                 else:
-                    elts.append(TOP)
+                    # an unpacked sequence of unknown length: the result is a homogeneous sequence of the joined elements
+                    star_elem = join(star_elem, self.model.iter_item(self, st, v, e.value, None)) if star_elem is not None \
+                        else self.model.iter_item(self, st, v, e.value, None)
+                    open_seq = True
             else:
                 elts.append(self.eval(e, frame, st))
+        if open_seq:
+            el = join_all(elts + ([star_elem] if star_elem is not None else []))
+            return AV(ty='tuple' if isinstance(n, ast.Tuple) else 'list', elem=el, fresh=True,
+                      deps=frozenset().union(*[x.deps or frozenset() for x in elts + ([star_elem] if star_elem is not None else [])]))
         return self.model.make_seq(self, 'tuple' if isinstance(n, ast.Tuple) else 'list', elts, n)
 
     e_List = e_Tuple
@@ -1180,6 +1219,24 @@ class Interp:
         return AV(ty='set', elem=elt, fresh=True, deps=elt.deps)
 
     def e_DictComp(self, n, frame, st):
+        # {f(name): g(value) for name, value in literal_dict.items()}: unrolled over the known keys
+        if len(n.generators) == 1 and not n.generators[0].ifs:
+            g = n.generators[0]
+            src = self.eval(g.iter, frame, st)
+            d = src.of if (src is not None and src.ty == 'dictitems') else None
+            if d is not None and d.kw and len(d.kw) <= 16 and not d.open_kw:
+                kw, ok = {}, True
+                for name, val in d.kw.items():
+                    cst = st.copy()
+                    self.assign(g.target, AV(ty='tuple', elts=[const(name), val]), frame, cst)
+                    kv, vv = self.eval(n.key, frame, cst), self.eval(n.value, frame, cst)
+                    st.heap = cst.heap
+                    if not (has_const(kv) and isinstance(cval(kv), str)):
+                        ok = False
+                        break
+                    kw[cval(kv)] = vv
+                if ok:
+                    return AV(ty='dict', kw=kw, fresh=True, deps=frozenset().union(*[v.deps or frozenset() for v in kw.values()]))
         (k, v), cst, me = self._comp(n, frame, st, [n.key, n.value])
         return AV(ty='dict', elem=v, keyelem=k, fresh=True, overwrite=True, deps=(k.deps or frozenset()) | (v.deps or frozenset()))
 
